@@ -223,6 +223,10 @@ func buildAF(class string, r *rng) *astits.PacketAdaptationField {
 				HasSeamlessSplice: true, SpliceType: uint8(r.intn(16)), DTSNextAccessUnit: &astits.ClockReference{Base: cr33(r)}}}
 	case "big":
 		return &astits.PacketAdaptationField{HasTransportPrivateData: true, TransportPrivateData: r.bytes(180), TransportPrivateDataLength: 180}
+	case "stuffed": // as parsed from a PCR-only packet of another stream (what a re-multiplexer hands over): the stuffing is the muxer's to compute
+		return &astits.PacketAdaptationField{HasPCR: true, PCR: pcr(), StuffingLength: r.pick(176, 1, 20, 100)}
+	case "onebyte": // as parsed from a packet whose adaptation_field_length is 0
+		return &astits.PacketAdaptationField{IsOneByteStuffing: true, Length: 0}
 	case "huge": // an adaptation field that alone does not fit in a packet: the call must be rejected without a partial packet
 		return &astits.PacketAdaptationField{HasTransportPrivateData: true, TransportPrivateData: r.bytes(182 + r.intn(20)), TransportPrivateDataLength: 190}
 	case "huge8": // ... around and beyond what an 8-bit length can hold
@@ -252,6 +256,10 @@ func afTotalLen(class string) int {
 		return 2 + 1 + 180
 	case "bigrai":
 		return 2 + 6 + 1 + 170
+	case "stuffed":
+		return 8
+	case "onebyte":
+		return 2
 	case "huge", "huge8":
 		return 185 // more than a packet holds (the exact size is drawn when the field is built)
 	}
